@@ -7,7 +7,7 @@ run_tests=0; if [ "${1:-}" = "--tests" ]; then run_tests=1; shift; fi
 wt="/dev/shm/vfy-mut-$$"
 git -C /repo worktree add -q --detach "$wt" HEAD || exit 2
 trap 'git -C /repo worktree remove --force "$wt" >/dev/null 2>&1; rm -f /verif/evidence/*.mutant.json' EXIT
-git -C "$wt" apply "$patch" || { echo "PATCH DOES NOT APPLY"; exit 2; }
+git -C "$wt" apply "$patch" 2>/dev/null || git -C "$wt" apply -3 "$patch" >/dev/null 2>&1 || { echo "PATCH DOES NOT APPLY"; exit 2; }
 if [ $run_tests = 1 ]; then
   (cd "$wt" && /venv/bin/python -m pytest -q -p no:cacheprovider --timeout=900 -x 2>&1 | tail -2)
 fi
